@@ -138,7 +138,11 @@ class PosTok:
         s.i = i
 
 
-def run_apply(fns, n, haspos, hasvel, hasf, boxtype, P, method='Apply', cls_fns=None):
+class StopExec(Exception):
+    pass
+
+
+def run_apply(fns, n, haspos, hasvel, hasf, boxtype, P, method='Apply', ellipsoid=False):
     w = [sp.Symbol('w%d' % i, real=True) for i in range(n)]
     fw = [sp.Symbol('fw%d' % i, real=True) for i in range(n)]
     m = [sp.Symbol('m%d' % i, positive=True) for i in range(n)]
@@ -153,10 +157,13 @@ def run_apply(fns, n, haspos, hasvel, hasf, boxtype, P, method='Apply', cls_fns=
         rvc.CTX.base.append(z3.Real('dist0') == 0)        # bc(r0, r0) = 0 (C02: antisymmetry)
     beads = [{'i': i} for i in range(n)]
     out = {'parents': []}
+    rpos = [r0] + [Mx.sym('rr%d' % i, 3) for i in range(1, n)]
     def getPos(b):
+        if ellipsoid:
+            return rpos[b['i']]       # the ellipsoid map also reads parent positions for its orientation (not claimed): no structural check here
         return r0 if b['i'] == 0 else PosTok(b['i'])
     def bcsc(bc, a, b):
-        i = 0 if b is r0 else b.i if isinstance(b, PosTok) else None
+        i = 0 if b is r0 else b.i if isinstance(b, PosTok) else ([k for k in range(n) if b is rpos[k]] or [None])[0]
         if i is None or (a is not r0 and not (isinstance(a, Mx) and all(rvc.nf_zero(a.g(k).v - (r0.g(k).v if haspos[0] else 0)) for k in range(3)))):
             raise rvc.Unsupported('BCShortestConnection called with unexpected arguments')
         if i == 0:
@@ -171,7 +178,13 @@ def run_apply(fns, n, haspos, hasvel, hasf, boxtype, P, method='Apply', cls_fns=
           'ClearParentBeads': lambda o: o['parents'].clear(), 'AddParentBead': lambda o, i: o['parents'].append(i),
           'setMass': lambda o, v: o.__setitem__('mass', v), 'setPos': lambda o, v: o.__setitem__('pos', v),
           'setVel': lambda o, v: o.__setitem__('vel', v), 'setF': lambda o, v: o.__setitem__('f', v),
-          'BCShortestConnection': bcsc, 'getBoxType': lambda bc: boxtype, 'getShortestBoxDimension': lambda bc: D(hmin), 'lexical_cast': lambda *a: 'str'}
+          'BCShortestConnection': bcsc, 'getBoxType': lambda bc: boxtype, 'getShortestBoxDimension': lambda bc: D(hmin), 'lexical_cast': lambda *a: 'str',
+          'setU': lambda o, v: None, 'setV': lambda o, v: None, 'setW': lambda o, v: None}
+    def decl(ex_, vd, ty, inner):
+        if 'SelfAdjointEigenSolver' in ty:
+            raise StopExec()          # the orientation part (eigen decomposition) is not claimed
+        return NotImplemented
+    cb['decl'] = decl
     matrix = [{'in_': beads[i], 'weight_': D(w[i]), 'force_weight_': D(fw[i])} for i in range(n)]
     this = {'matrix_': matrix, 'out_': out}
     ex = Exec({'bc': 'BC'}, cb, fns, this)
@@ -182,14 +195,18 @@ def run_apply(fns, n, haspos, hasvel, hasf, boxtype, P, method='Apply', cls_fns=
         pass
     except Thrown:
         status = 'thrown'
+    except StopExec:
+        pass
     return status, out, dict(w=w, fw=fw, m=m, r0=r0, vel=vel, frc=frc, u=u, dn=dn, hmin=hmin)
 
 
-def job_apply(n, boxtype, flags, seed):
+def job_apply(n, boxtype, flags, seed, ellipsoid=False):
     """Map_Sphere::Apply for n parents; flags = (pos, vel, f) presence pattern: 'all', 'none', 'mixed'"""
     rvc.reset()
-    fns = map_fns()
-    F = 'Map_Sphere::Apply'
+    fns = map_fns() if not ellipsoid else rvc.functions(rvc.ast('csg/src/libcsg/map.cc', 'Map_Ellipsoid'))
+    if 'Apply' not in fns:
+        raise core.Undecided('front end: Apply not found')
+    F = 'Map_Ellipsoid::Apply' if ellipsoid else 'Map_Sphere::Apply'
     bound = '%d parent beads' % n
     pat = {'all': ([True] * n, [True] * n, [True] * n), 'none': ([False] * n, [False] * n, [False] * n),
            'mixed': ([True] * n, [i % 2 == 0 for i in range(n)], [i % 2 == 1 for i in range(n)]),
@@ -199,8 +216,8 @@ def job_apply(n, boxtype, flags, seed):
     P = rvc.Paths()
     while True:
         P.start()
-        status, out, sy = run_apply(fns, n, haspos, hasvel, hasf, boxtype, P)
-        tag = 'n%d.box%d.%s.p%d' % (n, boxtype, flags, P.count)
+        status, out, sy = run_apply(fns, n, haspos, hasvel, hasf, boxtype, P, ellipsoid=ellipsoid)
+        tag = '%sn%d.box%d.%s.p%d' % ('ell.' if ellipsoid else '', n, boxtype, flags, P.count)
         zd = [z3.Real(x.name) for x in sy['dn']]
         posidx = [i for i in range(n) if haspos[i]]
         far = z3.Or(*[zd[i] > z3.Real('hmin') / 2 for i in posidx]) if posidx else z3.BoolVal(False)
@@ -212,7 +229,8 @@ def job_apply(n, boxtype, flags, seed):
             obs.append(rvc.logic('C01.apply/%s/accept' % tag, F, 'mapped only if every parent is within half the shortest box height of the first parent (never silently mapped)', z3.Not(far), pc=P.pc, bound=bound))
         if status == 'ok':
             w, fw = sy['w'], sy['fw']
-            obs.append(rvc.identity('C01.apply/%s/mass' % tag, F, 'mass == sum of parent masses', D.lift(out['mass']).v, sum(sy['m']), seed, bound=bound))
+            if not ellipsoid:
+                obs.append(rvc.identity('C01.apply/%s/mass' % tag, F, 'mass == sum of parent masses', D.lift(out['mass']).v, sum(sy['m']), seed, bound=bound))
             okp = out['parents'] == list(range(n))
             obs.append(Ob('C01.apply/%s/parents' % tag, F, 'parent ids recorded once each, in order', 'RVC', 'symbolic execution', core.BOUNDED if okp else core.REFUTED, 0, str(out['parents']), bound=bound, witness=None if okp else {'parents': str(out['parents'])}))
             for key, has in (('pos', any(haspos)), ('vel', any(hasvel)), ('f', any(hasf))):
@@ -229,10 +247,34 @@ def job_apply(n, boxtype, flags, seed):
                     obs.append(rvc.identity('C01.apply/%s/force.%s' % (tag, CO[k]), F, 'force == sum_i force_weight_i f_i', out['f'].g(k).v, sum(fw[i] * sy['frc'][i].g(k).v for i in range(n) if hasf[i]), seed, bound=bound))
         if not P.next():
             break
-    mf = [{'name': 'Map_Sphere::Apply', 'file': 'csg/src/libcsg/map.cc', 'ast_nodes': rvc.node_count(fns['Apply'][0])}]
+    mf = [{'name': F, 'file': 'csg/src/libcsg/map.cc', 'ast_nodes': rvc.node_count(fns['Apply'][0])}]
     for o in obs:
         o['functions'] = mf
     return obs
+
+
+def job_topmap(seed):
+    """TopologyMap::Apply: step, time and box of the output topology are set from the input BEFORE the bead maps run, and the maps get the OUTPUT boundary"""
+    rvc.reset()
+    fns = rvc.functions(rvc.ast('csg/src/libcsg/topologymap.cc', 'TopologyMap::Apply'))
+    if 'Apply' not in fns:
+        raise core.Undecided('front end: TopologyMap::Apply not found')
+    ev = []
+    tin, tout = {'id': 'in'}, {'id': 'out'}
+    cb = {'getStep': lambda t: ('step', t['id']), 'getTime': lambda t: ('time', t['id']), 'getBox': lambda t: ('box', t['id']),
+          'setStep': lambda t, v: ev.append(('setStep', t['id'], v)), 'setTime': lambda t, v: ev.append(('setTime', t['id'], v)), 'setBox': lambda t, v: ev.append(('setBox', t['id'], v)),
+          'getBoundary': lambda t: ('bc', t['id']), 'Apply': lambda m, bc: ev.append(('map', m['k'], bc))}
+    ex = Exec({}, cb, {}, {'in_': tin, 'out_': tout, 'maps_': [{'k': 0}, {'k': 1}]})
+    try:
+        ex.stmt(rvc.body_of(fns['Apply'][0]))
+    except Ret:
+        pass
+    exp = [('setStep', 'out', ('step', 'in')), ('setTime', 'out', ('time', 'in')), ('setBox', 'out', ('box', 'in')), ('map', 0, ('bc', 'out')), ('map', 1, ('bc', 'out'))]
+    ok = sorted(map(str, ev[:3])) == sorted(map(str, exp[:3])) and ev[3:] == exp[3:]
+    o = Ob('C01.topmap/order', 'TopologyMap::Apply', 'step, time and box are copied from the input topology before any bead map runs; every molecule map is applied once, in order, with the output topology\'s boundary', 'RVC',
+           'symbolic execution', core.PROVED if ok else core.REFUTED, 0, str(ev), witness=None if ok else {'events': str(ev)})
+    o['functions'] = [{'name': 'TopologyMap::Apply', 'file': 'csg/src/libcsg/topologymap.cc', 'ast_nodes': rvc.node_count(fns['Apply'][0])}]
+    return [o]
 
 
 def job_consequences(n, seed):
@@ -287,6 +329,10 @@ def run(tier, seed, only=None):
         if n > 1:
             jobs.append((job_apply, (n, 1, 'firstless', seed)))
         jobs.append((job_consequences, (n, seed)))
+        if n >= 2:
+            jobs.append((job_apply, (n, 2, 'all', seed, True)))
+            jobs.append((job_apply, (n, 3, 'mixed', seed, True)))
+    jobs.append((job_topmap, (seed,)))
     if only:
         jobs = [j for j in jobs if re.search(only, j[0].__name__ + str(j[1]))]
     obs = core.pmap(jobs)
